@@ -123,9 +123,13 @@ def run(tier):
         run.add_stats({'solver_calls': T.queries, 'solver_s': T.solver_s})
     # ---- CH strip unit
     def replay_strip(args):
-        import re
+        import importlib, mindsdb_sql
         sql = args['sql']
-        text = re.sub(r'[\s;]+$', '', sql)
+        saved = mindsdb_sql.get_lexer_parser
+        try:
+            text = importlib.import_module('harness.ch_C05')._stripped(sql)      # the text the REAL parse_sql hands to the lexer
+        finally:
+            mindsdb_sql.get_lexer_parser = saved
         ok = sql.startswith(text) and all(c.isspace() or c == ';' for c in sql[len(text):])
         return (not ok), {'sql': sql, 'stripped': text}, 'strip', 'parse_sql strips more than trailing whitespace/semicolons from %r' % sql
     ch_obligations(run, HARNESS, [dict(fn='strip_unit', twin='strip_unit_reach', replay=replay_strip)], cond_to=120)
